@@ -314,8 +314,12 @@ def isqrt (L : Nat) : Nat := ((List.range (L + 1)).filter (fun k => decide (k * 
 /-- `n_intervals = int(math.sqrt(series_length))`, at least 1 -/
 def nIntervals (L : Nat) : Nat := if isqrt L = 0 then 1 else isqrt L
 
-/-- `if series_length < min_interval: min_interval = series_length` -/
+/-- the interval bound `fit` works with (fix 46b8bee): the LOCAL `min_interval = min(self.min_interval,
+self.series_length)` handed to `_get_intervals` -/
 def minIntervalFit (L m : Nat) : Nat := if L < m then L else m
+
+/-- the `min_interval` ATTRIBUTE after `fit`: the constructor value, untouched (fix 46b8bee) -/
+def minIntervalAttr (_L m : Nat) : Nat := m
 
 /-- one pass of the loop body of `_get_intervals`; `u1`, `u2` are what `rng.randint(high1)` and
 `rng.randint(high2)` returned.  `randint(high)` raises `ValueError` for `high ≤ 0`; a missing or
@@ -351,7 +355,7 @@ def getIntervals (m L : Nat) : Nat → List Nat → Except Err (List (Nat × Nat
       | .ok (ivs, hs, rest) => .ok ((a, b) :: ivs, h1 :: h2 :: hs, rest)
 
 /-- `fit`: `intervals_ = [_get_intervals(...) for _ in range(n_estimators)]` with the fitted
-`n_intervals` and `min_interval` -/
+`n_intervals` and the local effective `min_interval` -/
 def fitIntervals (L minInterval : Nat) : Nat → List Nat → Except Err (List (List (Nat × Nat)) × List Nat)
   | 0, _ => .ok ([], [])
   | t + 1, ds =>
